@@ -47,9 +47,10 @@ Definition acquire_calls_VP8Encoder : list string :=
 
 Definition assigned_via (calls : list string) (hit_writes : list (string * string)) (gate imp_touch : list string) : list string :=
   when (mem "resetForReuse" calls) (strongly_written F.lossy_VP8Encoder_resetForReuse_writes)
+  ++ strongly_written hit_writes
   ++ filter (fun f => negb (String.eqb f "tokens")
                        || reset_complete_b F.lossy_TokenBuffer_fields class_TokenBuffer assigned_TokenBuffer [])
-            (strongly_written hit_writes)   (* a reset delegated to TokenBuffer.Reset counts only if that reset is complete *)
+            (delegated hit_writes calls delegated_resets)   (* a reset delegated to TokenBuffer.Reset counts only if that reset is complete *)
   ++ when (mem "initSegments" calls) (strongly_written F.lossy_VP8Encoder_initSegments_writes)
   ++ when (mem "initEncoderParams" calls) (strongly_written F.lossy_VP8Encoder_initEncoderParams_writes)
   ++ gate
@@ -159,6 +160,14 @@ Lemma dimension_gate_parallelState :
          F.lossy_parallelState_encodeFrameParallel_touches = true.
 Proof. split; reflexivity. Qed.
 
+(** the gate only guarantees "large enough": every buffer of the pooled parallel state
+    whose length the call can observe is re-sliced to this call's dimensions
+    (workers[:numWorkers], topY[:mbW*16], …) before use *)
+Lemma dimension_gate_parallelState_resliced :
+  subset ["workers"; "topY"; "topU"; "topV"; "topModes"; "topNz"; "topNzDC"]
+         F.lossy_parallelState_encodeFrameParallel_reslices = true.
+Proof. reflexivity. Qed.
+
 Definition assigned_RowWorker : list string := strongly_written F.lossy_RowWorker_encodeRow_writes.
 Lemma reset_complete_RowWorker :
   reset_complete_b F.lossy_RowWorker_fields class_RowWorker assigned_RowWorker [] = true.
@@ -225,6 +234,7 @@ Definition assigned_lossy_Decoder : list string :=
   strongly_written F.lossy_Decoder_acquireDecoder_writes
   ++ when (mem "parseHeaders" F.lossy_Decoder_DecodeFrame_calls)
        (strongly_written F.lossy_Decoder_parseHeaders_writes
+        ++ delegated F.lossy_Decoder_parseHeaders_writes F.lossy_Decoder_parseHeaders_calls delegated_resets
         ++ when (mem "parseFilterHeader" F.lossy_Decoder_parseHeaders_calls) (strongly_written F.lossy_Decoder_parseFilterHeader_writes)
         ++ when (mem "parsePartitions" F.lossy_Decoder_parseHeaders_calls) (strongly_written F.lossy_Decoder_parsePartitions_writes))
   ++ when (mem "initFrame" F.lossy_Decoder_DecodeFrame_calls) (strongly_written F.lossy_Decoder_initFrame_writes).
